@@ -362,6 +362,59 @@ pub fn c20(_tier: Tier, _seed: u64) -> Prop {
             ctx.m = crate::hv::mach::Mach::new();
         },
     ));
+    // ---- operand, stack and code addresses across the whole of DRAM and on-chip RAM
+    units.push(Unit::new(
+        "address-sweep",
+        16,
+        "operand (MOV.B/W load, MOV.L store through @ERn), stack (PUSH.L, JSR @ERn, RTS) and code (MOV.B #xx:8) at every multiple of H'100 in DRAM and on-chip RAM (8192 + 63 addresses) x 2 bus-controller settings under which DRAM, area 0 and on-chip RAM cost differently: the charge is the form's cycle mix priced with the closed form of C19 at exactly these addresses",
+        move |ctx, chunk| {
+            ctx.cycles_only = true;
+            ctx.closed_form_cost = true;
+            let mut addrs: Vec<u32> = (0x400000u32..0x600000).step_by(0x100).collect();
+            addrs.extend((0xffc000u32..0xffff00).step_by(0x100));
+            let isa = Isa::new();
+            let enc = |n: &str, f: Fields| isa.encode(isa.row(n), &f);
+            let forms: Vec<(Vec<u8>, u8)> = vec![
+                (enc("MOV.B @ERs,Rd", Fields { ra: 1, rd: 10, ..Default::default() }), 0),
+                (enc("MOV.W @ERs,Rd", Fields { ra: 1, rd: 2, ..Default::default() }), 0),
+                (enc("MOV.L ERs,@ERd", Fields { rs: 2, ra: 1, ..Default::default() }), 0),
+                (enc("MOV.L ERs,@-ERd", Fields { rs: 2, ra: 7, ..Default::default() }), 1),
+                (enc("JSR @ERn", Fields { ra: 3, ..Default::default() }), 1),
+                (enc("RTS", Fields::default()), 2),
+                (enc("MOV.B #xx:8,Rd", Fields { rd: 8, data: 0x5a, ..Default::default() }), 3),
+            ];
+            for (i, &a) in addrs.iter().enumerate() {
+                if i as u64 % 16 != chunk {
+                    continue;
+                }
+                for s in [SETTINGS[0], SETTINGS[3]].iter() {
+                    for (code, role) in forms.iter() {
+                        let pc = if *role == 3 { a } else if a >= 0xff0000 { 0x410000 } else { 0xffc000 };
+                        let mut c = Case::new(pc, code);
+                        c.er = dom::background_regs();
+                        c.er[1] = a;
+                        c.er[3] = 0x00ffc800;
+                        c.er[7] = 0x00ffe700;
+                        match role {
+                            1 => c.er[7] = a + 0x40,
+                            2 => {
+                                c.er[7] = a + 0x40;
+                                c.patch_l(a + 0x40, 0x0041_0600);
+                            }
+                            _ => {}
+                        }
+                        apply_settings(&mut c, s);
+                        ctx.run(&c);
+                    }
+                }
+                if ctx.stop {
+                    break;
+                }
+            }
+            ctx.cycles_only = false;
+            ctx.closed_form_cost = false;
+        },
+    ));
     Prop {
         id: "C20",
         level: "exploration",
